@@ -411,6 +411,22 @@ func oracleAuthOp(f []string) string {
 		if res == "ids -" {
 			return "authenticated-with-empty-identities"
 		}
+		// authentication on, a TLS peer (or opted-in plaintext), and no authenticator succeeds: the stream must be
+		// rejected, never downgraded to "unauthenticated but accepted"
+		if f[1] == "1" && (f[2] == "tls" || (f[2] == "plain" && f[3] == "1")) {
+			success := false
+			for _, r := range f[4:] {
+				if x := decAuthn(r); x.err == nil && !x.nilCaller && len(x.ids) > 0 {
+					success = true
+				}
+			}
+			if !success && res != "err" {
+				return "failed-authentication-not-rejected"
+			}
+			if success && !strings.HasPrefix(res, "ids") {
+				return "successful-authentication-lost"
+			}
+		}
 	}
 	return ""
 }
